@@ -78,8 +78,8 @@ package slug
 //@   set-at-call unpackinfo.UnpackInfo.RestoreInfo#3 upd: $nextDir = $nextDir + 1
 //@   ensures C15.unpack.all-dirs-restored: err == nil ==> $nextDir == len(directoriesExtracted)
 //@   ensures C12.unpack.illegal-slug: $rejected && !AbsErr(dst) ==> dyntype(err, "*slug.IllegalSlugError")
-//@   frame C01.frame: segUnder(Clean(_p), Clean(dst)) || Clean(_p) == Dir(Clean(dst))
-//@   slice-invariant directoriesExtracted C01.dirs: segUnder(Clean(_e.Path), Clean(dst))
+//@   frame C01.frame: segUnder(Clean(_p), Abs(dst)) || Clean(_p) == Dir(Abs(dst))
+//@   slice-invariant directoriesExtracted C01.dirs: segUnder(Clean(_e.Path), Abs(dst))
 //@   at-call os.Symlink C04.guarded: len(p.allowSymlinkTargets) == 0 ==>
 //@       segUnder(ite(isAbs(a0), Clean(a0), Join(Dir(Abs(a1)), a0)), Abs(dst))
 //@   invariant loop1 C12.eof.inv1: !$eof
